@@ -104,8 +104,12 @@ fn collect_derive(s: synstructure::Structure) -> TokenStream {
         override_bound
             .as_ref()
             .map(|x| {
-                x.parse()
+                // The string must be a where clause and nothing else: it is spliced into the
+                // header of the generated `unsafe impl`, where any further tokens (such as a
+                // `{ ... }` block) would take the place of the generated impl body.
+                x.parse::<Option<syn::WhereClause>>()
                     .expect("`#[collect]` failed to parse explicit trait bound expression")
+                    .to_token_stream()
             })
             .unwrap_or_else(|| quote!())
     };
